@@ -45,6 +45,11 @@ def run_contract(repo, specs, c, prune=True):
     try:
         ex = Exec(cx)
         verify_contract(ex, c)
+        stale = sorted(set(c.asserts) - cx.__dict__.get("assert_hits", set())) if getattr(c, "asserts", None) else []
+        if stale:
+            # an in-body assertion is keyed by the text of the statement it precedes: when no statement matches any
+            # more, the contract is out of date - an engine error, never a verdict about the property
+            raise Unsupported("contract out of date: no statement %r in %s for its in-body assertion" % (stale[0], c.target))
         if cx.exits == 0:
             raise Unsupported("no exit of %s is reachable under its precondition (vacuous contract)" % c.target)
     except Unsupported as e:
